@@ -2,6 +2,7 @@
 """Generates /verif/seeded/SUMMARY.md from /verif/seeded/*/meta.json."""
 import json, glob, os
 
+notes = json.load(open("/verif/seeded/NOTES.json")) if os.path.exists("/verif/seeded/NOTES.json") else {}
 rows = []
 for f in sorted(glob.glob("/verif/seeded/*/meta.json")):
     m = json.load(open(f))
@@ -14,6 +15,9 @@ for f in sorted(glob.glob("/verif/seeded/*/meta.json")):
         elif l.startswith("INCONCLUSIVE"):
             classes.append("INCONCLUSIVE")
     outcome = "caught" if chk.get("exit") == 1 else ("MISSED" if chk.get("exit") == 0 else "inconclusive")
+    name = os.path.basename(os.path.dirname(f))
+    if name in notes and outcome != "caught":
+        outcome = "not a violation (note)"
     rows.append((os.path.basename(os.path.dirname(f)), m.get("property"), (m.get("title") or "")[:90],
                  (m.get("needs_to_manifest") or "")[:160].replace("\n", " "),
                  "yes" if v.get("confirmed") else "NO", outcome, "; ".join(classes[:3])))
@@ -31,6 +35,9 @@ for r in rows:
     out.append("| " + " | ".join(x.replace("|", "/") for x in r) + " |")
 n = len(rows)
 caught = sum(1 for r in rows if r[5] == "caught")
-out += ["", "%d seeded changes, %d caught at the quick tier, %d not." % (n, caught, n - caught)]
+notv = sum(1 for r in rows if r[5].startswith("not a violation"))
+out += ["", "%d seeded changes, %d caught at the quick tier, %d judged not to violate the statement, %d missed." % (n, caught, notv, n - caught - notv)]
+if notes:
+    out += ["", "## Notes"] + ["* **%s**: %s" % (k, v) for k, v in sorted(notes.items())]
 open("/verif/seeded/SUMMARY.md", "w").write("\n".join(out) + "\n")
 print("\n".join(out[-3:]))
